@@ -81,26 +81,6 @@ class CompositionSolid(Material):
         return (0.001 * Tc + 10.0 * nA) if NATIVE else uf("Q", Tc, nA)
 
 
-@lemma(overrides=OV, stubs=ST, gen={"a": (0.001, 0.1), "b": (0.001, 0.1), "x": (0.001, 0.1), "od": (0.5, 3.0), "h": (1.0, 50.0), "T0": (20.0, 30.0), "T": (100.0, 600.0)})
-def component_setNumberDensity_reads_back_with_composition_dependent_expansion(a: float, b: float, x: float, od: float, h: float, T0: float, T: float):
-    """Component.setNumberDensity -> updateNumberDensities on a Circle whose material expands as a function of the
-    composition: the code rescales ALL densities by old volume / new volume on purpose (docstring of
-    updateNumberDensities), so the touched nuclide does not read back the requested value and the others change."""
-    assume(od > 0 and h > 0 and a > 0 and b > 0 and x > 0)
-    p = new(PMap, numberDensities={"A": a, "B": b}, volume=None, detailedNDens=None, pinNDens=None, modArea=None, temperatureInC=T, od=od, id=0.0, mult=1,
-            assigned=0, paramDefs={"numberDensities": new(PDef, assigned=0)})
-    m = new(CompositionSolid, parent=None)
-    comp = new(Circle, name="c", p=p, material=m, inputTemperatureInC=T0, parent=None, cached={})
-    m.parent = comp
-    blk = new(Block, name="b", _children=[comp], p=new(PMap, height=h), parent=None, cached={})
-    comp.parent = blk
-    if not NATIVE:
-        assume(uf("Q", T0, a) > -100.0 and uf("Q", T, a) > -100.0 and uf("Q", T0, x) > -100.0 and uf("Q", T, x) > -100.0)
-    try:
-        comp.setNumberDensity("A", x)
-    except RuntimeError:
-        return  # a correlation without expansion between T0 and T is refused loudly by getThermalExpansionFactor
-    assert eq(comp.getNumberDensity("A"), x) and eq(comp.getNumberDensity("B"), b), "the touched nuclide reads back the requested value, every other nuclide is unchanged"
 
 
 # ----------------------------------------------------------------------------- NEW finding: Cartesian full core
